@@ -414,6 +414,10 @@ def display_obligations(rep):
     for tok in sorted(d.Lexer.tokens):
         eh = mindsdb_sql.ErrorHandling(d.Lexer(), d.Parser())
         eh.tokens, eh.bad_token, eh.expected_tokens = [object()], None, [tok, 'COMMA' if tok != 'COMMA' else 'DOT']
+        # only the display string is wanted here: whatever validates a candidate by re-parsing is answered "yes" (that step has its own obligations)
+        for hook in ('query_is_valid', 'is_next_token'):
+            if hasattr(eh, hook):
+                setattr(eh, hook, lambda *a, **k: True)
         try:
             sug = eh.make_suggestion()
         except Exception as e:
@@ -439,6 +443,10 @@ def expected_obligations(rep):
     d = lrtab.load('mindsdb')
     fn = f'{INIT}:ErrorHandling.make_suggestion,sly.yacc:Parser.parse'
     eh = mindsdb_sql.ErrorHandling(d.Lexer(), d.Parser())
+    # the row-level fact only (what a row can lead to is C19.eof.viable.*): a validating re-parse, where the code has one, is answered "yes"
+    for hook in ('query_is_valid', 'is_next_token'):
+        if hasattr(eh, hook):
+            setattr(eh, hook, lambda *a, **k: True)
     bad = []
     n_rows = 0
     disp_to_tok = {}
@@ -547,6 +555,52 @@ def suggestions_of(msg):
     if not m:
         return []
     return re.findall(r'"((?:[^"\\]|\\.)*)"', m.group(1)) or []
+
+
+def eof_suggestion_obligations(rep):
+    """end-of-input suggestions, decided over the parsing table instead of sampled: for EVERY state of the generated automaton that has a viable prefix, the
+    statement that ends there is given to the real parse_sql; each concrete keyword it suggests must be taken as the next token by an independent
+    table-driven LR simulation (a row of an LALR table lists look-aheads of pending reductions that are refused once the reductions are done)"""
+    d = lrtab.load('mindsdb')
+    fn = f'{INIT}:ErrorHandling.make_suggestion'
+    n_states = n_msgs = n_sug = 0
+    bad = []
+    for s_ in range(len(d.action)):
+        pre = d.viable_prefix(s_)
+        if not pre:
+            continue
+        text = d.text_for(pre)
+        if text is None:
+            continue
+        n_states += 1
+        msg = message_of(text)
+        if not msg or 'unexpected end of query' not in msg:
+            continue
+        n_msgs += 1
+        kinds = d.lex_kinds(text)
+        if kinds is None:
+            continue
+        for sg in suggestions_of(msg):
+            if sg.startswith('['):
+                continue
+            sk = d.lex_kinds(sg)
+            if not sk or len(sk) != 1:
+                continue
+            n_sug += 1
+            if not lrtab.lr_first_error(d, kinds + sk)[0] > len(kinds):
+                bad.append((text, sg))
+    clause = 'forall states with a viable prefix p: every keyword suggested for `p <end of input>` is shifted after p (independent LR simulation over the generated tables)'
+    rep.census['eof_suggestion_states'] = n_states
+    rep.census['eof_suggestion_messages'] = n_msgs
+    rep.census['eof_suggestions_checked'] = n_sug
+    if n_sug == 0:
+        rep.undecided('C19.eof.viable.mindsdb', 'lrtab', f'no end-of-input suggestion could be examined ({n_states} states, {n_msgs} messages)', function=fn, clause=clause)
+    elif not bad:
+        rep.proved('C19.eof.viable.mindsdb', 'lrtab', f'{n_sug} suggestions of {n_msgs} end-of-input messages ({n_states} states with a viable prefix): each is the next token of a longer viable prefix', function=fn, clause=clause)
+    else:
+        text, sg = bad[0]
+        rep.failed('C19.eof.viable.mindsdb', 'lrtab', f'{len(bad)} of {n_sug} end-of-input suggestions cannot follow, e.g. `{text}` suggests "{sg}"', function=fn, clause=clause,
+                   replay={'input': text, 'dialect': 'mindsdb', 'fires': True, 'strict': True, 'observed': f'suggests "{sg}", which the parser refuses right there', 'expected': 'only tokens that can follow'})
 
 
 def bounded(rep, tier):
@@ -718,6 +772,7 @@ def check(rep, tier):
     display_obligations(rep)
     expected_obligations(rep)
     validated_obligation(rep)
+    eof_suggestion_obligations(rep)
     # a suggestion is validated by re-parsing: the verdict of that re-parse is the driver's (C05.drv.*) only under the driver's precondition at this call site
     from contracts import C05_driver
     C05_driver.callsite_obligations(rep, prefix='C19.validated.stream')
